@@ -84,7 +84,7 @@ def trimPrefix (s pre : Bytes) : Bytes := (cutPrefix s pre).getD s
 
 /-! ## tlog.Tile.Path -/
 
-def pathBase : Int := 1000
+abbrev pathBase : Int := 1000
 
 /-- Go's `a % b` (remainder of truncated division) for `b > 0` -/
 def goMod (a b : Int) : Int := if 0 ≤ a then a % b else -((-a) % b)
